@@ -141,6 +141,17 @@ def _do_op(state, op, check_inputs=False):
                     res['frame_violation'] = 'MerchantEngine.match changed the transaction or the supplemental rows'
                 if [dataclasses.asdict(x) for x in eng.rules] != rules0:
                     res['frame_violation'] = 'MerchantEngine.match changed the rule set'
+                if t.get('date') is not None:
+                    # the statement parsers carry datetimes: a caller handing the engine such a dict gets it back as it was
+                    from datetime import datetime, time as _time
+                    t_dt = dict(copy.deepcopy(t0), date=datetime.combine(t0['date'], _time.min))
+                    snap = copy.deepcopy(t_dt)
+                    try:
+                        eng.match(t_dt, data_sources=rows)
+                    except Exception:
+                        pass
+                    if repr(t_dt) != repr(snap):
+                        res['frame_violation'] = f'MerchantEngine.match changed the transaction it was given: {snap!r} -> {t_dt!r}'
             return res
         if k == 'eval':
             t, rows = lang.mk_txn(op['txn']), lang.mk_rows(op['rows'])
